@@ -44,7 +44,12 @@ func getJump(node *shared.TreeNode) []string {
 		return []string{node.Name}
 	}
 	if len(node.Children) == 1 {
-		return append([]string{node.Name}, getJump(node.FirstChild())...)
+		rest := getJump(node.FirstChild())
+		if len(rest) == 0 {
+			// the chain forks further down: it cannot be joined into one row
+			return rest
+		}
+		return append([]string{node.Name}, rest...)
 	}
 	return []string{}
 }
